@@ -179,7 +179,8 @@ def build(mesh):
                     coords.append((i + dx, j + dy, k + dz))
                 grid.append((i, j, k))
     sx, sy, sz = mesh.get("scale", [1.0, 1.0, 1.0])
-    coords = [(x * sx, y * sy, z * sz) for x, y, z in coords]
+    ox, oy, oz = mesh.get("shift", [0.0, 0.0, 0.0])      # a mesh that is not anchored at the origin
+    coords = [(x * sx + ox, y * sy + oy, z * sz + oz) for x, y, z in coords]
     elems = []
     if et == "bar":
         for a_ in range(nx):
@@ -430,6 +431,7 @@ class C19(Prop):
         "surface clause: quantified over untangled blocks only (every corner Jacobian positive, corner solid angles tile 4*pi at interior nodes and stay <= 3*pi at boundary nodes - checked by the generator with an independent formula); on tangled or deeply folded perturbed blocks the code's max-over-node-triples estimate of an element's solid angle over- or undershoots and nodes are mis-flagged",
         "surface_3D: the solid-angle arithmetic (arccos/arcsin, < 4*pi - 1e-5) is not modelled; the model flags nodes of a hexahedral block with fewer than 8 incident elements; boundary <=> flagged on perturbed blocks is decided by correspondence + oracle (test, not proof); the oracle also compares the code's per-corner solid angle with the Van Oosterom-Strackee value (1e-6): equality is required on unperturbed cubes with a uniform scale only, everywhere else (boxes with unequal edges, perturbed blocks) the value is a lower bound",
         "pandas semantics modelled by list functions and trusted: groupby (ascending keys, rows in frame order), groupby.first() / .mean(), sort_index(level=..., sort_remaining=False) being STABLE (first-element-wins depends on it), Index.duplicated(keep='first'), Index.get_indexer, Series.max / idxmax (first occurrence; NaN values are skipped: the model filters them out of the maximum, the hot-spot theorems are over a linear order where that filter is the identity - NaN entries are covered by correspondence + oracle only), boolean ^ of mis-aligned Series filling with False (hotspot.py), column selection by name",
+        "state between calls: every accessor is used twice on ONE accessor object around an in-place change of the frame (must equal a new accessor on the frame as it is), called repeatedly with the same arguments (same result bit for bit), and on two meshes with the same ids one after the other; arguments must come back with the same index and the same values in every column handed in - informational columns added to the caller's frame, another column order or dtype with equal values change no later result, are outside the property and only counted (state_cosmetic_argument_changes)",
         "first-order elements: on 16/20-node hexahedra and 10-node tetrahedra the code (documented) uses the corner nodes only and returns 0 at the mid-side nodes; the model does the same; clause (a) fails there - open finding g3d-midside-zero",
         "the least-squares model addresses node rows through the id -> position map of the sorted node ids (behaviour after the repair, /repo commit 65c89f2)",
     ]
@@ -614,6 +616,11 @@ class C19(Prop):
             if "scale" in mesh and max(mesh["scale"]) / min(mesh["scale"]) > 1e3:
                 s = mesh["scale"][0]
                 mesh["scale"] = [s, s, s]      # Qhull works on the unscaled point cloud: needle-shaped clouds are another topic
+            if rng.random() < 0.4:
+                # the source mesh's lower corner is not the origin; in units of the element size (from an offset of ~1e7 element
+                # sizes on, Qhull's lifting to the paraboloid loses the triangulation: same-point mapping returns wrong values)
+                s0 = (mesh.get("scale") or [1.0])[0]
+                mesh["shift"] = [12.0 * s0, -7.5 * s0, 3.25 * s0]
             dup = rng.random() < 0.4           # hand the full mesh frame (node rows repeated per element) to the mapper
             if mode == "same":
                 field = rng.choice([{"t": "nodal", "seed": rng.randrange(10**6)}, {"t": "quad", "seed": rng.randrange(10**6)},
@@ -651,6 +658,70 @@ class C19(Prop):
             pts.append([sum(v[c] for v in verts) / (d + 1) for c in range(d)])
         return {"kind": "map", "mode": mode, "verts": verts, "vals": vals, "pts": pts}
 
+    def _state_case(self, rng, tier):
+        """State kept between calls / arguments modified: ONE accessor object used twice around an in-place change of the frame,
+        argument integrity, repeated calls, and two meshes with the same ids through the same class one after the other."""
+        acc = rng.choice(["g3d", "g3d", "lsq", "hot", "surf", "map", "map", "map"])
+        purpose = acc
+        mesh = self._mesh(rng, tier, purpose)
+        et = mesh["etype"]
+        if et in ("hex20", "hex16", "odd"):
+            mesh["etype"] = "hex"
+        elif et == "tet10":
+            mesh["etype"] = "tet"
+        elif et == "bar":
+            mesh["etype"] = "quad"
+        if mesh["etype"] == "quad":
+            mesh["dims"] = [max(1, min(2, mesh["dims"][0])), max(1, min(2, mesh["dims"][1])), 0]
+            if acc == "lsq" and mesh["dims"][0] * mesh["dims"][1] == 1:
+                mesh["dims"][0] = 2
+            pl = mesh.get("plane")
+            if pl and pl["kind"] != "z":
+                mesh["plane"] = {"kind": "z", "c": 1.5}
+        elif mesh["etype"] in ("tet", "mixed") and acc == "g3d":
+            mesh["dims"] = [2 if mesh["etype"] == "mixed" else 1, 1, 1]      # gradient_3D costs ~10 ms per element and call
+        elif mesh["etype"] in ("tet",):
+            mesh["dims"] = [rng.randint(1, 2), 1, 1]
+        else:
+            mesh["dims"] = [rng.randint(1, 2), rng.randint(1, 2) if acc != "g3d" else 1, rng.randint(1, 2) if acc == "surf" else 1]
+        if mesh["etype"] == "mixed" and mesh["dims"][0] * mesh["dims"][1] * mesh["dims"][2] == 1:
+            mesh["dims"][0] = 2
+        sc = mesh.get("scale")
+        if sc and (max(sc) / min(sc) > 100 or acc in ("surf", "map")):
+            mesh["scale"] = [sc[0]] * 3
+        if acc == "surf":
+            mesh["amp"] = min(mesh["amp"], 0.05)
+        sh = rng.choice([None, [12.0, -7.5, 3.25], [12.0, -7.5, 3.25], [1e4, -2e4, 5e3]])
+        if sh:
+            s0 = (mesh.get("scale") or [1.0])[0]
+            mesh["shift"] = [v * s0 for v in sh]      # in units of the element size
+        lin = self._lin(rng, mesh["etype"] == "quad")
+        if not any(lin["g"]):
+            lin["g"] = [1.0, -2.0, 0.5]
+        if acc in ("g3d", "lsq"):
+            base = {"kind": "grad", "op": acc, "mesh": mesh,
+                    "field": lin if rng.random() < 0.7 else {"t": "nodal", "seed": rng.randrange(10**6)}}
+            change = rng.choice(["coords", "coords", "values", "vkey2", "perm", "eids"])
+        elif acc == "hot":
+            n_nodes = len(build(mesh)[0])
+            base = {"kind": "hot", "mesh": mesh, "field": {"t": "ints", "nv": [rng.randint(0, 5) for _ in range(n_nodes)]},
+                    "frac": rng.choice([0.9, 0.5, 0.75, 1.0]), "cap": None}
+            change = rng.choice(["values", "vkey2", "perm", "eids"])
+        elif acc == "surf":
+            if not block_untangled(build(mesh), mesh["dims"]):
+                mesh["amp"] = 0.0
+            base = {"kind": "surf", "mesh": mesh}
+            change = rng.choice(["coords", "perm", "eids"])
+        else:
+            mesh["levels"], mesh["rows"] = "en", "blocks"
+            if mesh["amp"] == 0.0:
+                mesh["amp"] = 0.05
+            base = {"kind": "map", "mode": "interior", "mesh": mesh, "field": lin, "drop_z": mesh["etype"] == "quad",
+                    "npts": rng.randint(1, 6), "tseed": rng.randrange(10**6), "dup": rng.random() < 0.4,
+                    "tindex": rng.choice(["range", "shuffled"])}
+            change = rng.choice(["coords-src", "coords-src", "values-src", "coords-target", "vkey2"])
+        return {"kind": "state", "acc": acc, "base": base, "change": change, "cseed": rng.randrange(10**6)}
+
     def _lsq_mesh_ok(self, mesh):
         """The least-squares model is only claimed where its rank decision and LAPACK's coincide (an argued bound, see
         ASSUMPTIONS, not a proof): 3-D meshes need sigma3/sigma1 >= 1e-5 at every node, planar ones sigma2/sigma1 >= 1e-5.
@@ -677,8 +748,8 @@ class C19(Prop):
         self.stats["exhaustive_scope_surface_blocks"] = (
             f"is_at_surface and the model's surfaceFlags on every unperturbed hexahedral block with 1..{top} cells per axis "
             f"({top**3} blocks, every grid node); the model's block rows (`blockRows`) are compared with the generator's")
-        n = {"g3d": 90, "lsq": 100, "hot": 200, "map": 120, "surf": 30} if not big else \
-            {"g3d": 900, "lsq": 1000, "hot": 2000, "map": 1200, "surf": 200}
+        n = {"g3d": 90, "lsq": 100, "hot": 200, "map": 120, "surf": 30, "state": 24} if not big else \
+            {"g3d": 900, "lsq": 1000, "hot": 2000, "map": 1200, "surf": 200, "state": 360}
         for _ in range(n["g3d"]):
             mesh = self._mesh(rng, tier, "g3d")
             field = self._lin(rng) if rng.random() < 0.65 else \
@@ -704,6 +775,8 @@ class C19(Prop):
                 mesh["amp"] = {0.3: 0.2, 0.2: 0.05}.get(mesh["amp"], 0.0)
                 mesh["pseed"] = rng.randrange(10**6)
             cases.append({"kind": "surf", "mesh": mesh})
+        for _ in range(n["state"]):
+            cases.append(self._state_case(rng, tier))
         for c in cases:
             self._count(c)
         self._n_same = sum(1 for c in cases if c["kind"] == "map" and c.get("mode") == "same")
@@ -712,6 +785,13 @@ class C19(Prop):
 
     def _count(self, c):
         st = self.stats
+        if c["kind"] == "state":
+            k = f"state/{c['acc']}/{c['change']}"
+            st["kinds"][k] = st["kinds"].get(k, 0) + 1
+            sh = c["base"]["mesh"].get("shift")
+            sk = "state shift " + ("none" if not sh else "%g" % max(abs(v) for v in sh))
+            st["scale"][sk] = st["scale"].get(sk, 0) + 1
+            return
         k = c["kind"] + ("/" + c.get("op", c.get("mode", "")) if c["kind"] in ("grad", "map") else "")
         st["kinds"][k] = st["kinds"].get(k, 0) + 1
         m = c.get("mesh")
@@ -870,6 +950,8 @@ class C19(Prop):
 
     def model_lines(self, case):
         kind = case["kind"]
+        if kind == "state":
+            return []          # oracle only: relations between calls of the real code
         if kind == "grad":
             built, values = self._built(case)
             return [f"m19 {case['op']} " + mesh_line(built, values)]
@@ -911,6 +993,8 @@ class C19(Prop):
 
     def impl_lines(self, case):
         kind = case["kind"]
+        if kind == "state":
+            return []
         res = self._run_impl(case)
         if "error" in res:
             return [res["error"]] * (2 if case.get("grid_exhaustive") else 1)
@@ -1030,6 +1114,11 @@ class C19(Prop):
     # ---------------------------------------------------------------- oracle (independent of the Lean model)
     def oracle(self, case):
         kind = case["kind"]
+        if kind == "state":
+            load()
+            with warnings.catch_warnings():
+                warnings.simplefilter("ignore")
+                return self._oracle_state(case)
         res = self._run_impl(case)
         if kind == "grad":
             return self._oracle_grad(case, res)
@@ -1039,6 +1128,181 @@ class C19(Prop):
             return self._oracle_surf(case, res)
         if kind == "map":
             return self._oracle_map(case, res)
+        return None
+
+    # ---- state between calls, argument integrity ----
+    @staticmethod
+    def _snap(frames):
+        return [f.copy(deep=True) for f in frames]
+
+    @staticmethod
+    def _identical(a, b):
+        """Bit for bit: type, index (values, names), column order / name, dtypes, values (NaN = NaN by bit pattern)."""
+        if type(a) is not type(b):
+            return f"type {type(a).__name__} vs {type(b).__name__}"
+        if not a.index.equals(b.index) or list(a.index.names) != list(b.index.names):
+            return "index differs"
+        cols_a = [a] if isinstance(a, pd.Series) else [a[c] for c in a.columns]
+        cols_b = [b] if isinstance(b, pd.Series) else [b[c] for c in b.columns]
+        if isinstance(a, pd.Series):
+            if a.name != b.name:
+                return f"name {a.name!r} vs {b.name!r}"
+        elif list(a.columns) != list(b.columns):
+            return f"columns {list(a.columns)} vs {list(b.columns)}"
+        for x, y in zip(cols_a, cols_b):
+            if x.dtype != y.dtype:
+                return f"dtype of {x.name!r}: {x.dtype} vs {y.dtype}"
+            if x.dtype.kind in "fiub":
+                if x.to_numpy().tobytes() != y.to_numpy().tobytes():
+                    i = int(np.nonzero(~((x.to_numpy() == y.to_numpy()) | ((x.to_numpy() != x.to_numpy()) & (y.to_numpy() != y.to_numpy()))))[0][:1].tolist()[0]) \
+                        if len(x) else 0
+                    return f"column {x.name!r} row {i}: {x.iloc[i]!r} vs {y.iloc[i]!r}"
+            elif list(x) != list(y):
+                return f"column {x.name!r} differs"
+        return None
+
+    def _fresh_std(self, sub):
+        """Run a standard case on the real code WITHOUT the result cache and judge it by its definitional oracle."""
+        res = self._run_impl_inner(sub)
+        k = sub["kind"]
+        o = {"grad": self._oracle_grad, "hot": self._oracle_hot, "surf": self._oracle_surf, "map": self._oracle_map}[k](sub, res)
+        return res, o
+
+    def _oracle_state(self, case):
+        base, acc, change = case["base"], case["acc"], case["change"]
+        mesh = base["mesh"]
+        vk = vkey_of(mesh)
+        r = random.Random(case.get("cseed", 0))
+        built, values = self._built(base)
+        if acc == "map":
+            src, target, expect, P, V, T = self._map_frames(base)
+            src, target = src.copy(deep=True), target.copy(deep=True)
+            main, frames, names = target, [target, src], ["the target mesh", "from_df"]
+        else:
+            main = frame(mesh, built, values)
+            frames, names = [main], ["the mesh frame"]
+        mk = {"g3d": lambda f: f.gradient_3D, "lsq": lambda f: f.gradient, "hot": lambda f: f.hotspot,
+              "surf": lambda f: f.surface_3D, "map": lambda f: f.meshmapper}[acc]
+        kw = {} if base.get("cap") is None else {"artefact_threshold": base["cap"]}
+
+        def call(a, key):
+            if acc in ("g3d", "lsq"):
+                return a.gradient_of(key)
+            if acc == "hot":
+                return a.calc(key, base["frac"], **kw)
+            if acc == "surf":
+                return a.is_at_surface()
+            return a.process(src, key)
+
+        what = {"g3d": "gradient_3D.gradient_of", "lsq": "gradient.gradient_of", "hot": "hotspot.calc",
+                "surf": "surface_3D.is_at_surface", "map": "meshmapper.process"}[acc]
+
+        def guarded(a, key, label):
+            """One call; every frame handed in must come back unchanged."""
+            before = self._snap(frames)
+            out = call(a, key)
+            for f, b, nm in zip(frames, before, names):
+                # a failure: what a later call with the same objects computes from is altered - the index (labels, order, level
+                # names) or the values of a column the caller handed in.  Added informational columns, another column order or
+                # dtype with the same values change no later result: outside the property, only counted.
+                if not f.index.equals(b.index) or list(f.index.names) != list(b.index.names):
+                    return out, (f"{what} ({label}) modified the index of {nm} it was given (mesh shift {mesh.get('shift')})", "state-argument-modified")
+                for c in b.columns:
+                    if c not in f.columns:
+                        return out, (f"{what} ({label}) removed column {c!r} from {nm} it was given", "state-argument-modified")
+                    d = self._identical(f[c].astype(b[c].dtype) if f[c].dtype != b[c].dtype else f[c], b[c])
+                    if d is not None:
+                        return out, (f"{what} ({label}) modified {nm} it was given: {d} (mesh shift {mesh.get('shift')})", "state-argument-modified")
+                if list(f.columns) != list(b.columns) or list(f.dtypes) != list(b.dtypes):
+                    self.stats["state_cosmetic_argument_changes"] = self.stats.get("state_cosmetic_argument_changes", 0) + 1
+            return out, None
+
+        # (2) argument integrity, repeated call with the same arguments: same object and a new one
+        a = mk(main)
+        r1, bad = guarded(a, vk, "first call")
+        if bad:
+            return bad
+        self.stats["state_calls"] = self.stats.get("state_calls", 0) + 1
+        for label, obj in (("second call, same accessor object", a), ("second call, new accessor object", mk(main))):
+            r1b, bad = guarded(obj, vk, label)
+            if bad:
+                return bad
+            d = self._identical(r1b, r1)
+            if d is not None:
+                return (f"{what}: {label} with the same arguments gives another result: {d} (mesh shift {mesh.get('shift')})", "state-repeat-differs")
+        # (1) the SAME accessor object after an in-place change of the frame = a new accessor on the frame as it is now
+        key2 = vk
+        n = len(main)
+        tgt = main if acc != "map" or change == "coords-target" else src
+        if change in ("coords", "coords-src", "coords-target"):
+            crd = [c for c in ("x", "y", "z") if c in tgt.columns]
+            X = tgt[crd].to_numpy(dtype=float)
+            if change == "coords-target":
+                X = X + 0.01 * (X.max(axis=0) - X.min(axis=0) + 1.0)
+            else:
+                A = np.array([[1.5, 0.25, 0.0], [0.0, 0.75, 0.125], [0.25, 0.0, 2.0]])[:len(crd), :len(crd)]
+                X = X @ A.T + np.array([3.0, -1.0, 0.5])[:len(crd)]
+            for j, c in enumerate(crd):
+                tgt[c] = X[:, j]
+        elif change in ("values", "values-src"):
+            tgt[vk] = [float(r.randint(-5, 9)) for _ in range(len(tgt))] if acc == "hot" else \
+                (tgt[vk].to_numpy(dtype=float) * -0.5 + np.array([r.uniform(-1, 1) for _ in range(len(tgt))]))
+        elif change == "vkey2":
+            key2 = "second_value"
+            tgt2 = src if acc == "map" else main
+            tgt2[key2] = [float(r.randint(0, 6)) for _ in range(len(tgt2))] if acc == "hot" else \
+                [r.uniform(-10, 10) for _ in range(len(tgt2))]
+        elif change == "perm":          # the rows element block by element block in reverse order, in place
+            eids = list(dict.fromkeys(main.index.get_level_values("element_id")))
+            pos = {e: [i for i, x in enumerate(main.index.get_level_values("element_id")) if x == e] for e in eids}
+            order = [i for e in reversed(eids) for i in pos[e]]
+            vals = {c: main[c].to_numpy()[order] for c in main.columns}
+            main.index = main.index[order]
+            for c, v in vals.items():
+                main[c] = v
+        elif change == "eids":          # element ids renumbered in place (descending instead of ascending)
+            ev = main.index.get_level_values("element_id")
+            nv = main.index.get_level_values("node_id")
+            new_e = (int(ev.max()) + int(ev.min())) - ev
+            arrays = {"element_id": new_e, "node_id": nv}
+            main.index = pd.MultiIndex.from_arrays([arrays[nm] for nm in main.index.names], names=main.index.names)
+        r2, bad = guarded(a, key2, f"same accessor object after the in-place change '{change}'")
+        if bad:
+            return bad
+        fresh = call(type(a)(main), key2)
+        d = self._identical(r2, fresh)
+        if d is not None:
+            return (f"{what} called again on the SAME accessor object after the frame was changed in place ({change}) differs from a new "
+                    f"accessor on the frame as it is now: {d} - state kept between calls", "state-kept-accessor-stale")
+        # (3) two meshes with the SAME ids but another geometry / field through the same class, A, B, A: each must be what its
+        # definition says (the existing clauses), and A must come out the same both times
+        other = json.loads(json.dumps(base))
+        om = other["mesh"]
+        om["pseed"] = mesh.get("pseed", 0) + 1
+        s0 = (mesh.get("scale") or [1.0, 1.0, 1.0])
+        om["scale"] = [2.0 * s0[0], 2.0 * s0[1], 2.0 * s0[2]] if (acc in ("surf", "map") or mesh.get("etype") == "quad") else \
+            [2.0 * s0[0], 0.5 * s0[1], 3.0 * s0[2]]
+        om["shift"] = [7.0 * s0[0], 0.0, -2.5 * s0[2]] if not mesh.get("shift") else [0.0, 0.0, 0.0]
+        if acc == "surf":
+            if not block_untangled(build(om), om["dims"]):
+                om["amp"] = 0.0
+        f = other.get("field")
+        if f:
+            if f["t"] == "lin":
+                f["g"], f["c"] = [-1.5, 0.75, 2.0], 3.0
+            elif f["t"] == "ints":
+                f["nv"] = list(reversed(f["nv"]))
+            else:
+                f["seed"] = f.get("seed", 0) + 1
+        first = None
+        for label, sub in (("A", base), ("B", other), ("A again", base)):
+            res, o = self._fresh_std(sub)
+            if o is not None and o[1] not in ("g3d-midside-zero", "map-hull-vertex-nan"):
+                return (f"two meshes with the same ids through {what} one after the other (A, B, A), at {label}: {o[0]}", "state-sequence-" + o[1])
+            if label == "A":
+                first = repr(res)
+            elif label == "A again" and repr(res) != first:
+                return (f"{what}: mesh A gives another result after mesh B (same ids, other geometry) went through the same class", "state-sequence-differs")
         return None
 
     def _oracle_grad(self, case, res):
@@ -1265,6 +1529,8 @@ class C19(Prop):
     # ---------------------------------------------------------------- bookkeeping
     def nontrivial(self, case, model_out):
         kind = case["kind"]
+        if kind == "state":
+            return None
         if kind == "surf":
             return json.dumps(case, sort_keys=True) if max(case["mesh"]["dims"]) >= 2 else None
         if kind == "hot":
@@ -1292,6 +1558,12 @@ class C19(Prop):
 
     def _simpler(self, case):
         c = lambda: json.loads(json.dumps(case))
+        if case["kind"] == "state":
+            for sub in self._simpler(case["base"]):
+                x = c()
+                x["base"] = sub
+                yield x
+            return
         m = case.get("mesh")
         if m:
             for ax in range(3):
